@@ -411,7 +411,8 @@ func (u *Unit) call(ev *Ev, x *ast.CallExpr, callee types.Object) Value {
 }
 
 func (ev *Ev) evalArgs(x *ast.CallExpr, sig *types.Signature) []Value {
-	var args []Value
+	var args, raw []Value
+	ev.u.lastRawArgs = nil
 	if len(x.Args) == 1 && sig != nil && sig.Params().Len() > 1 {
 		// f(g()) with multi-value g
 		v := ev.expr(x.Args[0])
@@ -435,8 +436,10 @@ func (ev *Ev) evalArgs(x *ast.CallExpr, sig *types.Signature) []Value {
 			}
 		}
 		v := ev.exprWithType(a, pt)
+		raw = append(raw, v)
 		args = append(args, ev.coerce(v, pt))
 	}
+	ev.u.lastRawArgs = raw
 	return args
 }
 
@@ -562,6 +565,9 @@ func (u *Unit) callSiteClauses(ev *Ev, ord string, names []string, args []Value,
 		}
 		for i, a := range args {
 			sev.binds[fmt.Sprintf("arg%d", i)] = a
+		}
+		for i, a := range u.lastRawArgs {
+			sev.binds[fmt.Sprintf("raw%d", i)] = a // argument before the implicit conversion to the parameter type
 		}
 		if recv != nil {
 			sev.binds["arg_recv"] = *recv
@@ -720,9 +726,17 @@ func (u *Unit) applyContract(ev *Ev, c *Contract, sig *types.Signature, recv *Va
 				continue
 			}
 			if sig.Variadic() && i == np-1 {
-				// variadic: bind as slice only if passed with ellipsis / single arg
-				if i < len(args) && args[i].K == vSlice {
+				// variadic: a slice passed with ... is bound as is; individually passed arguments are packed into a fresh slice
+				if len(args) == np && args[i].K == vSlice {
 					binds[n] = args[i]
+					continue
+				}
+				if st2, ok := sig.Params().At(i).Type().(*types.Slice); ok && !pureUse {
+					arr := u.allocRef(st, "varargs")
+					for j := i; j < len(args); j++ {
+						ev.assignLV(&LValue{K: lvElem, Ref: arr, Idx: fmt.Sprint(j - i), Typ: st2.Elem(), ElemKey: typeKey(st2.Elem())}, args[j])
+					}
+					binds[n] = Value{K: vSlice, Typ: sig.Params().At(i).Type(), Comp: map[string]Value{"#arr": scalar(arr, SRef, nil), "#len": intV(fmt.Sprint(len(args) - i))}}
 				}
 				continue
 			}
